@@ -300,7 +300,7 @@ func (g *c11gen) conn() c11conn {
 		stream = append(stream, raw...)
 	}
 	if r.Chance(40) { // malformed stream
-		switch r.Intn(9) {
+		switch r.Intn(11) {
 		case 0:
 			cut := r.Intn(len(stream) + 1)
 			stream = stream[:cut]
@@ -330,6 +330,21 @@ func (g *c11gen) conn() c11conn {
 		case 8:
 			stream = append(stream, []byte("set k 0 0 10\r\nabc")...)
 			cn.Mut = "short-body"
+		case 9: // a value large enough to live in a C-allocated buffer, followed by a wrong terminator
+			n := 4097 + r.Intn(2000)
+			if int64(n) > g.bodymax {
+				n = int(g.bodymax)
+			}
+			big := append([]byte(fmt.Sprintf("set k 0 0 %d\r\n", n)), r.Bytes(n)...)
+			stream = append(append(big, 'X', 'Y'), stream...)
+			cn.Mut = "bad-terminator-big"
+		case 10:
+			n := 4097 + r.Intn(2000)
+			if int64(n) > g.bodymax {
+				n = int(g.bodymax)
+			}
+			stream = append(stream, append([]byte(fmt.Sprintf("set k 0 0 %d\r\n", n)), r.Bytes(n/2)...)...)
+			cn.Mut = "short-body-big"
 		}
 	}
 	cn.Stream = hex.EncodeToString(stream)
